@@ -207,6 +207,42 @@ def validate(ctx, exe, execs, tag, what, replays=False):
     return ok, tr
 
 
+def coverage_guard(ctx, traces):
+    """Vacuity guard over the validated traces (TLC's -coverage is unusable on this spec: the cost model runs out of memory
+    on the recursive operators).  Every call kind, every callback kind, nested terminations, deep nesting and rejected
+    re-entrant calls must actually have occurred in what TLC accepted; otherwise the run proves little -> Infra."""
+    cnt = {}
+
+    def add(k, n=1):
+        cnt[k] = cnt.get(k, 0) + n
+
+    names = {1: "Start", 2: "Stop", 3: "Restart", 4: "Run"}
+    for tr in traces:
+        with open(tr) as f:
+            for line in f:
+                if not line.startswith('{"e":"Call"'):
+                    continue
+                e = json.loads(line)
+                add(names[e["c"][0]])
+                if e["c"][0] == 2 and sum(1 for t in e["out"] if t[0] == "X") >= 2:
+                    add("Stop_with_active_nested_machine")
+                for t in e["out"]:
+                    add("cb_" + t[0])
+                    if t[0] == "C" and t[4] == 0 and t[1] > 1:
+                        add("nested_machine_terminated")
+                    if t[0] == "R":
+                        add("reentrant_%s_rejected" % names[t[2]].lower())
+                if sum(q[0] for q in e["q"]) >= 3:
+                    add("three_levels_active")
+    need = list(names.values()) + ["cb_" + k for k in "GHXAECR"] + ["nested_machine_terminated", "three_levels_active",
+            "Stop_with_active_nested_machine"] + ["reentrant_%s_rejected" % n.lower() for n in names.values()]
+    missing = [k for k in need if cnt.get(k, 0) == 0]
+    if missing:
+        raise vlib.Infra("vacuity guard: never exercised in the validated traces: " + ", ".join(missing))
+    for k, v in cnt.items():
+        ctx.actions[k] = [v, v]
+
+
 def join_gen(items):
     tab = {x["tab"]: x["p"] for x in items if "tab" in x}
     return [{"p": tab[x["pi"]], "calls": x["calls"]} for x in items if "calls" in x]
@@ -221,8 +257,7 @@ def run(ctx):
         progs = [e["p"] for e in lines if e.get("e") == "Prog"]
         if not progs:
             raise vlib.Infra("replay file holds no Prog line: " + ctx.replay_path)
-        calls = [e["c"] for e in lines if e.get("e") == "Call"]
-        # the execution may have been cut by a Fault: re-run all calls that were recorded plus nothing else
+        calls = [e["c"] for e in lines if e.get("e") == "Begin"]     # includes a call that crashed before it was recorded
         validate(ctx, exe, [{"p": progs[0], "calls": calls}], "replay", "replay")
         return
     # 1. the design: reference semantics satisfies every clause on all programs of the families x all call sequences;
@@ -246,6 +281,8 @@ def binding(ctx, exe):
     nsim = 60 if ctx.quick() else 800           # TLC emits about 10 x num walks
     sim = join_gen(ctx.tlc_gen(SPEC, "Gen_Hfsm.tla", "Gen_sim.cfg", simulate=(nsim, 30), timeout=900, workers=2))
     validate(ctx, exe, sim, "gen_sim", "TLC-simulated long call sequences (family nest)", replays=True)
+    ren = join_gen(ctx.tlc_gen(SPEC, "Gen_Hfsm.tla", "Gen_reent.cfg", simulate=(30 if ctx.quick() else 300, 14), timeout=900, workers=2))
+    validate(ctx, exe, ren, "gen_reent", "TLC-simulated call sequences with re-entrant attempts (family reent)", replays=True)
     # 3. code -> spec: seeded random programs, deeper and larger than the families
     nprog, ncalls = (700, 36) if ctx.quick() else (8000, 60)
     execs = []
@@ -254,8 +291,9 @@ def binding(ctx, exe):
         execs.append({"p": p, "calls": gen_calls(rnd, p["ne"], rnd.randint(ncalls // 2, ncalls))})
     ok, tr = validate(ctx, exe, execs, "random", "seeded random programs (1-4 nesting levels)")
     if ok:
-        first = [json.loads(x) for x in vlib.read_lines(tr, 1, 4)]
+        first = [json.loads(x) for x in vlib.read_lines(tr, 1, 5)]
         ctx.sample({"kind": "recorded trace of a random program (first lines)", "events": first})
+        coverage_guard(ctx, [tr, ctx.tmp("gen_reent.ndjson")])
     ctx.assumptions = [
         "calls are made on the root machine from outside, and from inside a callback only on the callback's own machine "
         "(DESIGN section 5, decision 13: cross-machine re-entrancy is not generated)",
